@@ -1231,3 +1231,124 @@ func c07r10(rc *core.RC) {
 		rc.Unknown("decoder/one-word-clears", token.NoPos, "found %d flag-gated one-word nil stores (confirmed: 4)", n)
 	}
 }
+
+// ---- C07.R12 an empty-interface pair is stored only in a destination without methods ----
+
+// interfaceDecoder serves every interface type. Its two workers (decodeEmptyInterface, decodeStreamEmptyInterface)
+// build a Go value for the JSON text and store it with *(*interface{})(p) = v: a pair (type descriptor, data). That
+// is the layout of interface{} only; a destination whose type has methods is a pair (method table, data), and the
+// same store leaves it pointing at a type descriptor where the runtime expects a method table (the next method call
+// through it faults). The callers keep the two apart with one test: `if rv.NumMethod() > 0 … { … return }` in front
+// of every call of a worker. Obligation, for each call of a worker from another method of interfaceDecoder: an if
+// statement of the method body that tests NumMethod() and always returns stands in front of the call.
+func c07r12(rc *core.RC) {
+	p := rc.P
+	pk := p.Pkg("decoder")
+	if pk == nil {
+		rc.Unknown("decoder", token.NoPos, "package not found")
+		return
+	}
+	info := pk.TypesInfo
+	isEfaceStore := func(as *ast.AssignStmt) bool {
+		for i, l := range as.Lhs {
+			st, ok := core.Unparen(l).(*ast.StarExpr)
+			if !ok {
+				continue
+			}
+			t := info.TypeOf(st.X)
+			pt, ok := t.(*types.Pointer)
+			if !ok {
+				continue
+			}
+			if it, ok := pt.Elem().Underlying().(*types.Interface); !ok || it.NumMethods() != 0 {
+				continue
+			}
+			if i < len(as.Rhs) {
+				if tv, ok := info.Types[as.Rhs[i]]; ok && tv.IsNil() {
+					continue
+				}
+			}
+			return true
+		}
+		return false
+	}
+	workers := map[*types.Func]bool{}
+	for _, fd := range p.Funcs("decoder") {
+		if fd.Body == nil || fd.Recv == nil {
+			continue
+		}
+		fn, _ := info.Defs[fd.Name].(*types.Func)
+		if fn == nil || !strings.HasSuffix(fn.Type().(*types.Signature).Recv().Type().String(), "decoder.interfaceDecoder") {
+			continue
+		}
+		ast.Inspect(fd.Body, func(n ast.Node) bool {
+			if as, ok := n.(*ast.AssignStmt); ok && isEfaceStore(as) {
+				workers[fn] = true
+			}
+			return true
+		})
+	}
+	if len(workers) < 2 {
+		rc.Unknown("decoder.interfaceDecoder/workers", token.NoPos, "found %d methods of interfaceDecoder that store a value through *(*interface{})(p) (confirmed: 2)", len(workers))
+	}
+	n := 0
+	for _, fd := range p.Funcs("decoder") {
+		if fd.Body == nil || fd.Recv == nil {
+			continue
+		}
+		fn, _ := info.Defs[fd.Name].(*types.Func)
+		if fn == nil || workers[fn] {
+			continue
+		}
+		name := p.FuncName(fd)
+		k := 0
+		ast.Inspect(fd.Body, func(m ast.Node) bool {
+			c, ok := m.(*ast.CallExpr)
+			if !ok || !workers[core.Callee(info, c)] {
+				return true
+			}
+			k++
+			n++
+			rc.Touch(name)
+			guarded := false
+			for _, st := range fd.Body.List {
+				if st.End() > c.Pos() {
+					break
+				}
+				ifs, ok := st.(*ast.IfStmt)
+				if !ok || ifs.Else != nil || len(ifs.Body.List) == 0 {
+					continue
+				}
+				if _, isRet := ifs.Body.List[len(ifs.Body.List)-1].(*ast.ReturnStmt); !isRet {
+					continue
+				}
+				// NumMethod() > 0 as a conjunct of the condition
+				var conj func(e ast.Expr) bool
+				conj = func(e ast.Expr) bool {
+					e = core.Unparen(e)
+					be, ok := e.(*ast.BinaryExpr)
+					if !ok {
+						return false
+					}
+					if be.Op == token.LAND {
+						return conj(be.X) || conj(be.Y)
+					}
+					call, ok := core.Unparen(be.X).(*ast.CallExpr)
+					if !ok || !strings.HasSuffix(core.CalleeName(info, call), ".NumMethod") {
+						return false
+					}
+					v, isC := core.ConstInt(info, be.Y)
+					return isC && ((be.Op == token.GTR && v == 0) || (be.Op == token.NEQ && v == 0) || (be.Op == token.GEQ && v == 1))
+				}
+				if conj(ifs.Cond) {
+					guarded = true
+				}
+			}
+			rc.Check(guarded, fmt.Sprintf("%s/worker-call#%d behind-the-method-test", name, k), c.Pos(), "%s stores a (type, data) pair through *(*interface{})(p): in front of the call the method has to have left, with `if rv.NumMethod() > 0 … { … return }`, for every destination whose interface type has methods (there the same two words are a method table and data: a nil fmt.Stringer would come back non-nil with a type descriptor in place of its method table)", core.CalleeName(info, c))
+			return true
+		})
+	}
+	if n < 4 {
+		rc.Unknown("decoder.interfaceDecoder/worker-calls", token.NoPos, "found %d calls of the empty-interface workers (confirmed: 4)", n)
+	}
+}
